@@ -220,7 +220,10 @@ def _fresh(e, X):
     if isinstance(e, X.ExprId):
         return X.ExprId(e.name, e.size, e.is_term, e.is_reg)
     if isinstance(e, X.ExprMem):
-        return X.ExprMem(_fresh(e.arg, X), e.size, _fresh(e.segm, X) if isinstance(e.segm, X.Expr) else e.segm)
+        m = X.ExprMem(_fresh(e.arg, X), e.size, _fresh(e.segm, X) if isinstance(e.segm, X.Expr) else e.segm)
+        if e.is_term:
+            m.is_term = True        # not a memo flag: the machine's way of saying "the INITIAL content of this location"
+        return m
     if isinstance(e, X.ExprOp):
         return X.ExprOp(e.op, *[_fresh(a, X) for a in e.args])
     if isinstance(e, X.ExprCond):
